@@ -182,7 +182,8 @@ def bytes_pool(mname, pname):
     if mname == "InvokeInterchain":
         return [["ibtp", {"from": FULL_B, "to": FULL_A, "index": 1, "type": 0, "payload": True}], ibtp_req2, ["b", "junk"]]
     if pname in ("input", "data") or mname in ("HandleIBTPData", "InvokeInterchain", "InvokeReceipt"):
-        return [ibtp_req2, ibtp_rcpt, ["b", "junk"]]
+        # well-formed first: the reverse pair with ITS next index (1 in basic and warmed worlds alike), then the forward pair
+        return [["ibtp", {"from": FULL_B, "to": FULL_A, "index": 1, "type": 0}], ibtp_req2, ibtp_rcpt, ["b", "junk"]]
     if pname == "extra" and mname == "Manage":
         return [["json", REGISTER_INFO], ["json", BNS_DATA], ["b", ""]]
     if pname == "value":
